@@ -6,6 +6,9 @@
 //        (0 slot)                  slot := WithContext(background)          -> (0 id)
 //        (1 slot src)              slot := AliasContext(background, slots[src]) -> (1 id)
 //        (3 slot)                  slot := a context.Context without id     -> (3)
+//        (4 slot parent wrap)      slot := WithContext(slots[parent] | WithCancel(it) | WithValue(it)) -> (4 id)
+//        (5 slot parent src)       slot := AliasContext(slots[parent], slots[src])               -> (5 id)
+//        (6 slot parent)           slot := context.WithCancel(slots[parent])  -> (6 id-showing-through | -1)
 //        (2 lvl fn kind ref (m..)) one logging call                         -> (2 x<the bytes written>)
 //             lvl 0 info (package Info pointed at the capture writer) 1 trace 2 warn 3 error
 //                 4 info as Switch leaves it (ioutil.Discard)
@@ -14,6 +17,7 @@
 //   (2 g0 n (tid...))    n worker goroutines; entry tid = that goroutine performs one whole
 //                        WithContext while the others wait               -> (0 (tid id)...)
 //   (3 n m)              n goroutines x m (WithContext; Tf) at full speed  -> (0 total duplicates)
+//   (8 n m)              n goroutines: a parent with id, m creations derived from it  -> (0 fresh dups bad-aliases)
 //   (5 n m)              n goroutines x m logging calls, all levels       -> (0 lines bad)
 //   (6 pid (op...))      writer management, one goroutine: (0 w) Switch(writer w), (1) Close(),
 //                        (2 lvl fn kind ref (m..)) logging call (kind 2: context with cid ref, ref<0 none)
@@ -258,6 +262,82 @@ func vC18Seq(c vSx) (vSx, vSx, []vC18Fail, bool) {
 			}
 			slots[op.l[1].int()] = ctx
 			out = append(out, vL(vZ(1), vI(id)))
+		case op.l[0].i64() == 4 && len(op.l) == 4:
+			// WithContext over a parent that may already carry an id, directly or through a derivation
+			parent, have := slots[op.l[2].int()]
+			if !have {
+				parent = context.Background()
+			}
+			pid0, pok := vC18Cid(parent)
+			switch op.l[3].int() % 3 {
+			case 1:
+				var cancel context.CancelFunc
+				parent, cancel = context.WithCancel(parent)
+				defer cancel()
+			case 2:
+				parent = context.WithValue(parent, vC18Other{x: 1}, "v")
+			}
+			ctx := WithContext(parent)
+			id, ok := vC18Cid(ctx)
+			switch {
+			case !ok:
+				bad("id-present", "WithContext returned a context without id")
+			case pok && id == pid0:
+				bad("unique-id", fmt.Sprintf("WithContext over a parent carrying id %d returned the SAME id", pid0))
+			case !vC18NewID(id):
+				bad("unique-id", fmt.Sprintf("id %d was handed out before", id))
+			}
+			if pok {
+				aliased = true
+			}
+			slots[op.l[1].int()] = ctx
+			out = append(out, vL(vZ(4), vI(id)))
+		case op.l[0].i64() == 5 && len(op.l) == 4:
+			parent, have := slots[op.l[2].int()]
+			if !have {
+				parent = context.Background()
+			}
+			src, haveSrc := slots[op.l[3].int()]
+			var ctx context.Context
+			if haveSrc {
+				ctx = AliasContext(parent, src)
+			} else {
+				ctx = AliasContext(parent, nil)
+			}
+			id, ok := vC18Cid(ctx)
+			sid, sok := 0, false
+			if haveSrc {
+				sid, sok = vC18Cid(src)
+			}
+			pid0, pok := vC18Cid(parent)
+			switch {
+			case !ok:
+				bad("id-present", "AliasContext returned a context without id")
+			case sok && id != sid:
+				bad("alias-id", fmt.Sprintf("alias has id %d, source has %d", id, sid))
+			case !sok && pok && id == pid0:
+				bad("unique-id", fmt.Sprintf("alias of an id-less source handed back the parent's id %d instead of a fresh one", pid0))
+			case !sok && !vC18NewID(id):
+				bad("unique-id", fmt.Sprintf("alias of an id-less source got id %d, handed out before", id))
+			}
+			if pok {
+				aliased = true
+			}
+			slots[op.l[1].int()] = ctx
+			out = append(out, vL(vZ(5), vI(id)))
+		case op.l[0].i64() == 6 && len(op.l) == 3:
+			parent, have := slots[op.l[2].int()]
+			if !have {
+				parent = context.Background()
+			}
+			ctx, cancel := context.WithCancel(parent)
+			defer cancel()
+			id, ok := vC18Cid(ctx)
+			if !ok {
+				id = -1
+			}
+			slots[op.l[1].int()] = ctx
+			out = append(out, vL(vZ(6), vI(id)))
 		case op.l[0].i64() == 3 && len(op.l) == 2:
 			ctx, cancel := context.WithCancel(context.Background())
 			cancel()
@@ -646,6 +726,85 @@ func vC18LogStress(c vSx) (vSx, vSx, []vC18Fail, bool) {
 		prevG = g
 	}
 	return c, vL(vZ(0), vI(len(ws)), vI(nbad)), fails, switches > n
+}
+
+// ---- kind 8: nested creation from many goroutines: every goroutine makes a "server" context with id,
+// then m derived ones: WithContext(WithCancel(parent)), WithContext(WithValue(parent)),
+// AliasContext(parent, nil), AliasContext(parent, background) -- all FRESH -- and
+// AliasContext(parent, parent) -- the parent's id
+func vC18Nested(c vSx) (vSx, vSx, []vC18Fail, bool) {
+	var fails []vC18Fail
+	n, m := c.l[1].int(), c.l[2].int()
+	if n < 1 || n > 256 || m < 0 || n*m > 1000000 {
+		return c, vL(vZ(-1)), nil, false
+	}
+	fresh := make([][]int, n)
+	badAlias := make([]int, n)
+	sameAsParent := make([]int, n)
+	var wg sync.WaitGroup
+	start := make(chan bool)
+	for g := 0; g < n; g++ {
+		wg.Add(1)
+		go func(g int) {
+			defer wg.Done()
+			<-start
+			parent := WithContext(context.Background())
+			pid0, _ := vC18Cid(parent)
+			fresh[g] = append(fresh[g], pid0)
+			for i := 0; i < m; i++ {
+				var ctx context.Context
+				switch i % 5 {
+				case 0:
+					d, cancel := context.WithCancel(parent)
+					ctx = WithContext(d)
+					cancel()
+				case 1:
+					ctx = WithContext(context.WithValue(parent, vC18Other{x: 2}, i))
+				case 2:
+					ctx = AliasContext(parent, nil)
+				case 3:
+					ctx = AliasContext(parent, context.Background())
+				default:
+					ctx = AliasContext(context.Background(), parent)
+				}
+				id, _ := vC18Cid(ctx)
+				if i%5 == 4 {
+					if id != pid0 {
+						badAlias[g]++
+					}
+					continue
+				}
+				if id == pid0 {
+					sameAsParent[g]++
+				}
+				fresh[g] = append(fresh[g], id)
+			}
+		}(g)
+	}
+	close(start)
+	if !vC18Wait(&wg, time.Duration(10+n*m/20000)*time.Second) {
+		return c, vL(vZ(-2)), []vC18Fail{{"goroutine-hung", "context-creating goroutines did not finish (abandoned)"}}, false
+	}
+	seen := map[int]bool{}
+	total, dups, ba, sp := 0, 0, 0, 0
+	for g := 0; g < n; g++ {
+		ba += badAlias[g]
+		sp += sameAsParent[g]
+		for _, id := range fresh[g] {
+			total++
+			if seen[id] || !vC18NewID(id) {
+				dups++
+			}
+			seen[id] = true
+		}
+	}
+	if dups > 0 {
+		fails = append(fails, vC18Fail{"unique-id", fmt.Sprintf("%d of %d ids created over id-carrying parents are not new (%d equal their parent's id)", dups, total, sp)})
+	}
+	if ba > 0 {
+		fails = append(fails, vC18Fail{"alias-id", fmt.Sprintf("%d aliases of an id-carrying source do not carry its id", ba)})
+	}
+	return c, vL(vZ(0), vI(total), vI(dups), vI(ba)), fails, n >= 2
 }
 
 // ---- kinds 6 and 7: the writer-management API (Switch / Close)
@@ -1041,6 +1200,17 @@ func vC18GenSeq(r *vRng) vSx {
 		case 2:
 			ops = append(ops, vL(vZ(1), vI(r.intn(4)), vI(r.intn(5))))
 		case 3:
+			switch r.intn(5) {
+			case 0:
+				ops = append(ops, vL(vZ(4), vI(r.intn(4)), vI(r.intn(5)), vI(r.intn(3))))
+				continue
+			case 1:
+				ops = append(ops, vL(vZ(5), vI(r.intn(4)), vI(r.intn(5)), vI(r.intn(6))))
+				continue
+			case 2:
+				ops = append(ops, vL(vZ(6), vI(r.intn(4)), vI(r.intn(5))))
+				continue
+			}
 			if r.chance(1, 2) {
 				ops = append(ops, vL(vZ(3), vI(r.intn(4))))
 			} else {
@@ -1099,6 +1269,8 @@ func TestVerifC18(t *testing.T) {
 			c, obs, fails, nt = vC18Stress(c)
 		case kind == 5 && len(c.l) == 3:
 			c, obs, fails, nt = vC18LogStress(c)
+		case kind == 8 && len(c.l) == 3 && c.l[1].isInt() && c.l[2].isInt():
+			c, obs, fails, nt = vC18Nested(c)
 		case kind == 6 && len(c.l) == 3 && c.l[2].isList():
 			c, obs, fails, nt = vC18Manage(c)
 		case kind == 7 && len(c.l) == 4 && c.l[1].isInt() && c.l[2].isInt():
@@ -1132,6 +1304,9 @@ func TestVerifC18(t *testing.T) {
 	}
 	for _, s := range logst {
 		runOne(vL(vZ(5), vI(s[0]), vI(s[1])))
+	}
+	for _, nm := range [][2]int{{16, 500}, {2, 2000}, {64, 50}} {
+		runOne(vL(vZ(8), vI(nm[0]), vI(nm[1]*k.N(1, 4))))
 	}
 	// writer management: goroutines logging across Switch / Close sequences
 	sw := func(w int) vSx { return vL(vZ(0), vI(w)) }
